@@ -781,6 +781,18 @@ def mutate_counts(rng, region):
     return bytes(b)
 
 
+def palette_family(dist):
+    """indexed framebuffer: every buffer length x colour count around it (the palette must fit behind its 2-byte count)"""
+    out = []
+    for L in range(0, 26):
+        # 21846, 21847, 43691, 43692: 3 * count wraps to 2, 5, 1, 4 in 16-bit arithmetic
+        for ncol in list(range(0, 10)) + [255, 256, 21845, 21846, 21847, 43691, 43692, 0xFFFF]:
+            buf = (E.u16(ncol) + marker(64, start=L + ncol))[:L]
+            out.append(mbi_case(E.mbi([E.t_framebuffer(0x1000, 1, 2, 3, 8, 0, buf, 0), E.t_cmdline("NEXT")])))
+            count(dist, "palette_family")
+    return out
+
+
 def gen_C01(rng, tier):
     dist = {}
     cases = []
@@ -791,13 +803,7 @@ def gen_C01(rng, tier):
             count(dist, "hand_written")
     n = 16000 if tier == "thorough" else 350
     regions = [dirty_padding(r, rng) for r in gen_mbi_regions(rng, n, dist)]
-    # indexed framebuffer: every buffer length x colour count around it (the palette must fit behind its 2-byte count)
-    for L in range(0, 26):
-        # 21846, 21847, 43691, 43692: 3 * count wraps to 2, 5, 1, 4 in 16-bit arithmetic
-        for ncol in list(range(0, 10)) + [255, 256, 21845, 21846, 21847, 43691, 43692, 0xFFFF]:
-            buf = (E.u16(ncol) + marker(64, start=L + ncol))[:L]
-            cases.append(mbi_case(E.mbi([E.t_framebuffer(0x1000, 1, 2, 3, 8, 0, buf, 0), E.t_cmdline("NEXT")])))
-            count(dist, "palette_family")
+    cases += palette_family(dist)
     for r in regions:
         cases.append(mbi_case(r))
         if rng.random() < 0.6:
@@ -1001,6 +1007,14 @@ def gen_C05(rng, tier):
                 region = E.mbi([t, E.t_cmdline("NEXT-TAG")])
                 cases.append(mbi_case(region))
                 count(dist, "kind_%d" % typ)
+    # the palette of an indexed framebuffer: its extent is fixed by the colour count, which must fit the declared size
+    cases += palette_family(dist)
+    # the generic structure obtained from a slice (ref_from_slice): declared sizes around the slice length, both tag header kinds
+    for h in (1, 2):
+        for n in range(8, 49, 8):
+            for d in range(max(0, n - 9), n + 18):
+                cases.append("c14 %d 0 %s" % (h, hx((hdr_bytes(h, d, rng) + marker(n, start=n + d))[:n])))
+                count(dist, "generic_from_slice")
     # information request of the header crate: every size 8..40 and beyond
     for s in list(range(0, 41)) + [44, 48, 100, 0xFFFFFFFF]:
         n = max(8, (min(s, 128) + 7) // 8 * 8)
